@@ -35,6 +35,16 @@ Sensitivity (quick tier, seed 1, each mutant applied alone to a scratch copy of 
        -> caught after 21 cases (C26.leak via the absolute form //<base>/outside.txt)
   M5 get: the capture is url-unescaped a second time before joining
        -> caught after 370 cases (C26.leak: %252e%252e/root/a.txt serves a file the once-decoded path does not name)
+  M6 validate_absolute_path returns early (before the containment test) when the absolute path already has an entry
+     in the class-level _static_hashes cache (shared by all handlers and by static_url)
+       -> caught at seeds 1, 2, 3 by the new ``multi`` part (C26.leak: GET /m1/../root/a.txt -> 200 after a.txt had been
+          served through the other handler); MISSED before: one handler per Application and the cache reset before
+          every request.  replays/C26/multi-handler-warm-cache.json pins it.
+
+Part ``multi``: 2-3 StaticFileHandlers with sibling / nested roots (root, root_secret, root/sub, abs/path/to) in one
+Application (mount 0 via the static_path setting), a history of 2-6 operations sharing the version-hash cache (legitimate
+fetch through an owning handler or make_static_url on any path = warm-up, then a traversal / absolute form through ANOTHER
+handler aimed at the same file, plus soup requests, with ?v=), containment judged per handler, cache reset once per history.
 """
 import contextlib
 import os
@@ -56,6 +66,7 @@ RULE = (
     "prefix + run of up-steps in 14 spellings + one of 14 real outside/sibling targets, up-count biased to "
     "land exactly on the sibling level), absolute forms (//base, %2fbase, fully encoded) and segment soup "
     "(<=8 segments from 45), x 3 mounts x trailing-slash root x default_filename x GET/HEAD x ?v=; "
+    "part multi: histories over 2-3 handlers with sibling/nested roots sharing the hash cache (warm-up then traversal); "
     "non-trivial = the lexical normalisation crosses the root upward at least once or the target is a "
     "prefix-sharing sibling (root_secret, rootx, roo); distinct = SHA-1 of the case"
 )
@@ -202,9 +213,10 @@ def build_app(fx, case):
     return Application([(pattern, StaticFileHandler, dict(path=root_cfg, **hargs))])
 
 
-def fetch(ctx, app, method, target):
+def fetch(ctx, app, method, target, reset=True):
     req = method.encode() + b" " + target + b" HTTP/1.1\r\nHost: fixture.test\r\n\r\n"
-    StaticFileHandler.reset()
+    if reset:
+        StaticFileHandler.reset()
     wire, closed, logs, _ = roundtrip(app, req)
     try:
         rs = parse_responses(wire, [method], closed)
@@ -331,14 +343,158 @@ def run_case(ctx, case):
     ctx.note(case, labels, nontrivial)
 
 
-PARTS = {"main": run_case}
+# --------------------------------------------------------------------------- several handlers, warm caches
+# Two or three StaticFileHandlers with sibling / nested roots in ONE Application (mount 0 is the ``static_path``
+# setting), and a *history* of operations that share the class-level version-hash cache: legitimate fetches
+# through one handler (warming the cache for that file), ``make_static_url`` calls (which hash any path, also
+# outside the root), then traversals through ANOTHER handler aimed at the already-hashed file.  The containment
+# oracle is evaluated per handler: a file inside handler B's root is still outside handler A's.
+ROOTKEYS = {"root": "root", "secret": "root_secret", "sub": "root/sub", "to": "abs/path/to"}
+MULTI_FILES = ["root/a.txt", "root/sub/b.txt", "root/sub/index.html", "root/sub/deep/c.txt", "root/noindex/d.txt",
+               "root_secret/s.txt", "root_secret/index.html", "rootx", "roo/r.txt", "outside.txt", "abs/path/to/secret"]
+MULTI_UPS = ["..", "..", "..", "%2e%2e", "%2E%2e", ".%2e"]
+
+
+def _contains(rootrel, filerel):
+    return filerel.startswith(rootrel + "/")
+
+
+@st.composite
+def multi_case_s(draw):
+    keys = draw(st.lists(st.sampled_from(sorted(ROOTKEYS)), min_size=2, max_size=3, unique=True))
+    mounts = [(k, draw(st.booleans())) for k in keys]
+    ops = []
+    for _ in range(draw(st.integers(1, 3))):
+        kind = draw(st.sampled_from(["warm_attack", "warm_attack", "warm_attack", "soup"]))
+        if kind == "soup":
+            ops.append(("get", draw(st.integers(0, len(mounts) - 1)), draw(segs_s), draw(st.sampled_from(["GET", "GET", "HEAD"])),
+                        draw(st.sampled_from(["", "?v=1"]))))
+            continue
+        f = draw(st.sampled_from(MULTI_FILES))
+        owners = [i for i, (k, _) in enumerate(mounts) if _contains(ROOTKEYS[k], f)]
+        others = [i for i, (k, _) in enumerate(mounts) if not _contains(ROOTKEYS[k], f)]
+        # warm the shared hash cache for f: a legitimate fetch through an owning handler, or make_static_url
+        if owners and draw(st.sampled_from([True, True, False])):
+            i = draw(st.sampled_from(owners))
+            rel = f[len(ROOTKEYS[mounts[i][0]]) + 1:]
+            ops.append(("get", i, rel.split("/"), "GET", draw(st.sampled_from(["", "?v=1", "?v=abc"]))))
+        else:
+            i = draw(st.integers(0, len(mounts) - 1))
+            depth = ROOTKEYS[mounts[i][0]].count("/") + 1
+            ops.append(("hash", i, [".."] * depth + f.split("/")))
+        if others:
+            a = draw(st.sampled_from(others))
+            depth = ROOTKEYS[mounts[a][0]].count("/") + 1
+            ups = [draw(st.sampled_from(MULTI_UPS)) for _ in range(depth)]
+            form = draw(st.sampled_from(["dotdot", "dotdot", "absolute", "enc_absolute"]))
+            if form == "dotdot":
+                segs = ups + f.split("/")
+            elif form == "absolute":
+                segs = ["", "@BASE@"] + f.split("/")
+            else:
+                segs = ["%2f@BASE@"] + f.split("/")
+            ops.append(("get", a, segs, draw(st.sampled_from(["GET", "GET", "HEAD"])), draw(st.sampled_from(["", "", "?v=1"]))))
+    return {"mounts": mounts, "ops": ops}
+
+
+def build_multi_app(fx, mounts):
+    roots = [os.path.join(fx.base, ROOTKEYS[k]) for k, _ in mounts]
+    handlers = []
+    for i in range(1, len(mounts)):
+        hargs = {"path": roots[i]}
+        if mounts[i][1]:
+            hargs["default_filename"] = "index.html"
+        handlers.append((r"/m%d/(.*)" % i, StaticFileHandler, hargs))
+    hargs0 = {"default_filename": "index.html"} if mounts[0][1] else {}
+    app = Application(handlers, static_path=roots[0], static_url_prefix="/m0/", static_handler_args=hargs0)
+    return app, roots
+
+
+def run_multi(ctx, case):
+    fx = staticfix.tree()
+    base_rel = fx.base.lstrip("/")
+    app, roots = build_multi_app(fx, case["mounts"])
+    StaticFileHandler.reset()  # once per history: the cache is what the history is about
+    labels = {"multi_%d_handlers" % len(roots)}
+    if any(a != b and (a.startswith(b + "/")) for a in roots for b in roots):
+        labels.add("multi_nested_roots")
+    nontrivial = False
+    hashed = set()  # absolute paths whose version hash is (legitimately) in the shared cache
+    for step, op in enumerate(case["ops"]):
+        if op[0] == "hash":
+            _, i, relsegs = op
+            rel = "/".join(relsegs)
+            settings = dict(app.settings, static_path=roots[i])
+            url = StaticFileHandler.make_static_url(settings, rel)
+            norm, _ = lexical_join(roots[i], rel)
+            if "?v=" in url:
+                hashed.add(norm)
+            labels.add("hash_op")
+            continue
+        _, i, segs, method, query = op
+        root, default_on = roots[i], case["mounts"][i][1]
+        prefix = "/m%d/" % i
+        segs = [s.replace("@BASEENC@", "%2f" + base_rel.replace("/", "%2f")).replace("@BASE@", base_rel) for s in segs]
+        path = prefix + "/".join(segs)
+        target = (path + query).encode("ascii")
+        cap = path[len(prefix):]
+        try:
+            rel = urllib.parse.unquote_to_bytes(cap).decode("utf-8")
+        except UnicodeDecodeError:
+            rel = None
+        r = fetch(ctx, app, method, target, reset=False)
+        if r is None:
+            continue
+        if rel is None:
+            if r.code not in (400, 403, 404) or MARK in r.body:
+                ctx.fail("C26.invalid_utf8_served", {"target": target, "code": r.code, "step": step})
+            continue
+        norm, crossed = lexical_join(root, rel)
+        inside = norm == root or norm.startswith(root + "/")
+        expect_file = None
+        if inside:
+            if os.path.isfile(norm):
+                expect_file = norm
+            elif os.path.isdir(norm) and default_on and os.path.isfile(os.path.join(norm, "index.html")):
+                expect_file = os.path.join(norm, "index.html")
+        detail = {"step": step, "ops": case["ops"][:step + 1], "mounts": case["mounts"], "handler": i, "target": target,
+                  "decoded": rel, "norm": norm.replace(fx.base, "<BASE>"), "root": root.replace(fx.base, "<BASE>"),
+                  "inside": inside, "code": r.code, "body": r.body[:80], "already_hashed": norm in hashed}
+        if MARK in r.body and (not inside or expect_file is None or r.body != fx.content.get(expect_file)):
+            ctx.fail("C26.leak", detail)
+        if not inside:
+            labels.add("multi_outside")
+            if norm in hashed:
+                labels.add("warm_then_traverse_outside")
+                nontrivial = True
+            if any(norm.startswith(o + "/") for o in roots if o != root):
+                labels.add("outside_but_in_other_handlers_root")
+            if r.code not in (403, 404):
+                ctx.fail("C26.outside_status", detail)
+        else:
+            if r.code not in (200, 301, 403, 404):
+                ctx.fail("C26.inside_status", detail)
+            if r.code == 200:
+                labels.add("multi_served_200")
+                if expect_file is None or (method == "GET" and r.body != fx.content[expect_file]):
+                    ctx.fail("C26.wrong_file", detail)
+                else:
+                    hashed.add(expect_file)
+            elif r.code == 301 and not (os.path.isdir(norm) and default_on):
+                ctx.fail("C26.redirect_not_dir", detail)
+    ctx.note(case, labels, nontrivial)
+
+
+PARTS = {"main": run_case, "multi": run_multi}
 REQUIRED = ["dotdot_escape", "sibling_prefix", "absolute", "encoded_slash", "nul", "dir_default", "served_200",
-            "flip_hidden", "flip_created"]
+            "flip_hidden", "flip_created", "warm_then_traverse_outside", "hash_op", "multi_nested_roots",
+            "outside_but_in_other_handlers_root", "multi_served_200"]
 
 
 def main(ctx):
     ctx.run_replays(PARTS)
     ctx.explore(case_s, run_case, ctx.n(4000, 160000), name="main")
+    ctx.explore(multi_case_s(), run_multi, ctx.n(1500, 60000), name="multi")
     for lab in REQUIRED:
         if not ctx.violations and not ctx.labels.get(lab):
             ctx.warnings.append("required label never hit: %s" % lab)
